@@ -74,7 +74,13 @@ impl<T: Clone + Send + Sync + 'static> Operator for ScriptSource<T> {
         self.pos += 1;
         if let (Some(t), Some(turns)) = (step.after, self.turns.as_ref()) {
             // a gate never blocks for ever: after the timeout the element is emitted anyway
-            turns.wait_for(t, Duration::from_millis(2000));
+            let ms = match turns.timeout_ms.load(std::sync::atomic::Ordering::Relaxed) {
+                0 => 2000,
+                ms => ms,
+            };
+            if !turns.wait_for(t, Duration::from_millis(ms)) {
+                turns.timeouts.fetch_add(1, std::sync::atomic::Ordering::Relaxed);
+            }
         }
         if step.delay_us > 0 {
             std::thread::sleep(Duration::from_micros(step.delay_us));
